@@ -669,4 +669,51 @@ example : cartesian [1, 2, 3] [10, 20] 2 1 = [(1, 10), (1, 20), (2, 10), (2, 20)
     cartesian [1, 2, 3] [10] 0 0 = [(1, 10), (2, 10), (3, 10)] := by decide
 
 
+/-! ## grading, flatten -/
+
+/-- **grade up**: a rearrangement of the positions `0 … n-1`, items non-decreasing along it, equal items in their original
+    order (that is: sorted by (item, position), which determines the answer uniquely) -/
+theorem gradeUp_spec (l : List Int) :
+    (gradeUp l).Perm (List.range l.length) ∧
+    (gradeUp l).Pairwise (fun i j => l.getD i 0 < l.getD j 0 ∨ (l.getD i 0 = l.getD j 0 ∧ i ≤ j)) := by
+  refine ⟨List.mergeSort_perm _ _, ?_⟩
+  have := List.pairwise_mergeSort (le := gradeLe l)
+    (by intro a b c hab hbc; simp only [gradeLe, Bool.or_eq_true, Bool.and_eq_true, decide_eq_true_eq] at *; omega)
+    (by intro a b; simp only [gradeLe, Bool.or_eq_true, Bool.and_eq_true, decide_eq_true_eq]; omega) (List.range l.length)
+  simpa [gradeUp, gradeLe] using this
+
+theorem gradeUp_sorted (l : List Int) : ((gradeUp l).map (fun i => l.getD i 0)).Pairwise (· ≤ ·) := by
+  rw [List.pairwise_map]
+  exact (gradeUp_spec l).2.imp (by intro a b h; omega)
+
+/-- **grade down**: items non-increasing, equal items in their original order -/
+theorem gradeDown_spec (l : List Int) :
+    (gradeDown l).Perm (List.range l.length) ∧
+    (gradeDown l).Pairwise (fun i j => l.getD j 0 < l.getD i 0 ∨ (l.getD i 0 = l.getD j 0 ∧ i ≤ j)) := by
+  refine ⟨List.mergeSort_perm _ _, ?_⟩
+  have := List.pairwise_mergeSort (le := gradeGe l)
+    (by intro a b c hab hbc; simp only [gradeGe, Bool.or_eq_true, Bool.and_eq_true, decide_eq_true_eq] at *; omega)
+    (by intro a b; simp only [gradeGe, Bool.or_eq_true, Bool.and_eq_true, decide_eq_true_eq]; omega) (List.range l.length)
+  simpa [gradeDown, gradeGe] using this
+
+theorem flattenL_append (a b : List T) : flattenL (a ++ b) = flattenL a ++ flattenL b := by
+  induction a with
+  | nil => simp [flattenL]
+  | cons t ts ih => simp [flattenL, ih, List.append_assoc]
+
+/-- **flatten** of a list of plain items is that list … -/
+theorem flatten_flat (l : List Int) : flattenT (.node (l.map T.leaf)) = l := by
+  simp only [flattenT]
+  induction l with
+  | nil => rfl
+  | cons x xs ih => simp [flattenL, flattenT, ih]
+
+/-- … so flattening twice is flattening once (the leaves, left to right) -/
+theorem flatten_idempotent (t : T) : flattenT (.node ((flattenT t).map T.leaf)) = flattenT t := flatten_flat _
+
+example : flattenT (.node [.leaf 1, .node [.leaf 2, .node []], .leaf 3]) = [1, 2, 3] := by decide
+/-- (merge sort is defined by well-founded recursion, which the kernel does not unfold: the concrete values
+    `gradeUp [3, 1, 3, 2] = [1, 3, 0, 2]`, `gradeDown … = [0, 2, 3, 1]` are checked by the driver against the element) -/
+example : (gradeUp [3, 1, 3, 2]).length = 4 := by simp [gradeUp]
+
 end C16
